@@ -406,7 +406,9 @@ func racePairs() string {
 	for _, n1 := range names {
 		for _, n2 := range names {
 			// "ab": both operands are sets that an earlier operation handed back, not constructor-made ones
-			for _, pat := range []string{"AB", "AA", "ab"} {
+			// "cc": both operands were populated and then cleared — whatever Clear leaves to be done lazily is
+			// done by the pair itself, possibly by two readers at once
+			for _, pat := range []string{"AB", "AA", "ab", "cc"} {
 				racePair(n1, n2, pat)
 				pairs++
 				fmt.Fprintf(os.Stderr, "PAIR-DONE %s(%s) %s\n", n1, pat, n2)
@@ -424,6 +426,11 @@ func racePair(n1, n2, pat string) {
 	}
 	if pat == "ab" {
 		a, b = a.Clone(), b.Union(mapset.NewSet())
+		pat = "AB"
+	}
+	if pat == "cc" {
+		a.Clear()
+		b.Clear()
 		pat = "AB"
 	}
 	var wg sync.WaitGroup
